@@ -29,7 +29,10 @@ fn main() {
     unsafe { native::INPUTS = inputs; }
     native::set_tracking(true);
     // run on a thread of its own, so that thread-local destructors run (and are tracked) when it exits
-    let r = std::thread::Builder::new().stack_size(64 << 20).spawn(move || f()).unwrap().join();
+    let r = std::thread::Builder::new().stack_size(64 << 20).spawn(move || {
+        native::set_baseline();
+        f()
+    }).unwrap().join();
     native::set_tracking(false);
     if r.is_err() {
         println!("NATIVE uncaught-panic");
